@@ -9,6 +9,8 @@
 //! operational, statement-by-statement one with explicit panic sites (`xput:` / `xrr:` / `map enumx`,
 //! Model/MapOps.lean). Every exhaustive subtree digest of the real code is compared with BOTH model digests and
 //! every random history is sent in both spellings; on the real map `xput` = `put`, `xrr` = `rr`.
+// catch-all arms keep the harness compiling when the crate adds a variant to one of its error enums (the outcome is then `unknown:<Debug>`)
+#![allow(unreachable_patterns)]
 use std::collections::BTreeMap;
 use std::sync::atomic::{AtomicUsize, Ordering};
 use std::sync::Mutex;
@@ -110,6 +112,7 @@ fn real_op(map: &mut MemoryMap, sh: &mut Shadow, op: &str) -> Result<(String, Op
 					else if dump(map) != before {bad = Some("rejected put changed the map".to_owned());}
 					format!("err {need} {have}")
 				},
+				Ok(Err(e)) => {bad = Some(format!("put refused with an error of a kind the property does not name: {e:?}")); format!("err unknown:{e:?}")},
 			};
 			Ok((text, bad))
 		},
@@ -480,6 +483,7 @@ impl<'a> Enum<'a>
 					if !overflow {self.fail("fitting put rejected".to_owned());}
 					else if before.map(|b| dump(&b)) != Some(dump(map)) {self.fail("rejected put changed the map".to_owned());}
 				},
+				Ok(Err(e)) => {h = fnv(mix(h, 97), format!("unknown:{e:?}").as_bytes()); self.fail(format!("put refused with an unknown kind of error: {e:?}"));},
 			}
 		}
 		else if i < 36
